@@ -8,8 +8,9 @@
    * src/query.rs:195    CompilationBase::add_module   -> [edit]: an Occupied entry with a different text
                                                          calls ModuleTextQuery.invalidate (new revision);
                                                          equal text returns early; a Vacant entry is
-                                                         inserted WITHOUT a new revision ([bump_new = false]
-                                                         is the code as it stands, [true] the repaired one)
+                                                         inserted WITHOUT a new revision ([NewNever] is the
+                                                         code as it stands; [NewIfRequested], [NewAlways]
+                                                         are repaired designs)
    * src/query.rs:548,603 typechecked_source_module / core_expr call report_untracked_read(), and
                          compiled_module is a `dependencies` (never memoised) query, so in every new
                          revision the first demand of global_inner(m) re-executes it: a memo entry is
@@ -186,14 +187,31 @@ Record engine := mkEngine { srcs : sources; revn : nat; memt : memo }.
 
 Definition empty_engine : engine := mkEngine [] 0 [].
 
-(* add_module.  [bump_new = false]: src/query.rs:213 as it stands (Vacant entry: no invalidate). *)
-Definition edit (bump_new : bool) (e : engine) (m : name) (s : source) : engine :=
+(* What add_module does when the module had no source yet (hash_map::Entry::Vacant, src/query.rs:213):
+   NewNever        the code as it stands: the text is inserted, no new revision;
+   NewIfRequested  a repaired design: a new revision iff the module was requested before (its
+                   module_text slot exists, i.e. the memo table has an entry for it);
+   NewAlways       another repaired design: a new revision for every first definition.
+   (Neither repair is a one-line change of add_module: calling invalidate there while other tasks
+   hold database snapshots deadlocks, see the C15 report.) *)
+Inductive policy := NewNever | NewIfRequested | NewAlways.
+
+Definition bump_new (p : policy) (mm : memo) (m : name) : bool :=
+  match p with
+  | NewNever => false
+  | NewAlways => true
+  | NewIfRequested => match get mm m with Some _ => true | None => false end
+  end.
+
+(* add_module: an Occupied entry with a different text calls ModuleTextQuery.invalidate (new
+   revision), an equal text returns early. *)
+Definition edit (p : policy) (e : engine) (m : name) (s : source) : engine :=
   match lookup (srcs e) m with
   | Some old =>
     if source_eqb old s then e
     else mkEngine (set_nth (srcs e) m s) (S (revn e)) (memt e)
   | None =>
-    mkEngine (set_nth (srcs e) m s) (if bump_new then S (revn e) else revn e) (memt e)
+    mkEngine (set_nth (srcs e) m s) (if bump_new p (memt e) m then S (revn e) else revn e) (memt e)
   end.
 
 Definition inc_eval (e : engine) (m : name) : engine * result * list name :=
@@ -203,13 +221,13 @@ Definition inc_eval (e : engine) (m : name) : engine * result * list name :=
 Inductive op := Edit (m : name) (s : source) | Eval (m : name).
 
 (* Runs a history; returns the final engine and, for every Eval, (result, bodies run). *)
-Fixpoint run (bump_new : bool) (e : engine) (h : list op) : engine * list (result * list name) :=
+Fixpoint run (p : policy) (e : engine) (h : list op) : engine * list (result * list name) :=
   match h with
   | [] => (e, [])
-  | Edit m s :: h' => run bump_new (edit bump_new e m s) h'
+  | Edit m s :: h' => run p (edit p e m s) h'
   | Eval m :: h' =>
     let '(e1, r, ev) := inc_eval e m in
-    let '(e2, out) := run bump_new e1 h' in
+    let '(e2, out) := run p e1 h' in
     (e2, (r, ev) :: out)
   end.
 
@@ -246,4 +264,60 @@ Fixpoint cycles_of (cs : list cause) : list (list name) :=
   | [] => []
   | CCyclic c :: r => c :: cycles_of r
   | _ :: r => cycles_of r
+  end.
+
+(* ------------------------------------------- how a cycle is named (src/query.rs:465-511)
+
+   recover_cycle / recover_cycle_salvage receive the participants of the cycle as query keys
+   (`import("m")`, `global_inner("m")`, `typechecked_source_module(("m", None))`), keep the keys that
+   start with `import(`, drop the last one (the query that closes the cycle is listed first and
+   last) and print `cycle -> module`.
+
+   Shape of the participant list (an ASSUMPTION about gluon-salsa, observed by instrumenting a
+   scratch copy, not re-established on every run): for the cycle m1 -> ... -> mk -> m1 entered at
+   m1, every member contributes global_inner and typechecked_source_module, and its `import` key only
+   when that query is executed in this revision ([exec m]) rather than re-validated from an older
+   memo.  The harness checks the implementation-side consequence: is the printed chain an import
+   chain of the sources. *)
+
+Inductive qkey := KImport (m : name) | KGlobal (m : name) | KTypecheck (m : name).
+
+Definition key_name (k : qkey) : name :=
+  match k with KImport m => m | KGlobal m => m | KTypecheck m => m end.
+Definition is_import (k : qkey) : bool := match k with KImport _ => true | _ => false end.
+Definition is_import_or_global (k : qkey) : bool :=
+  match k with KImport _ => true | KGlobal _ => true | KTypecheck _ => false end.
+
+Definition frame (exec : name -> bool) (m : name) : list qkey :=
+  (if exec m then [KImport m] else []) ++ [KGlobal m; KTypecheck m].
+
+Definition cycle_keys (exec : name -> bool) (c : list name) : list qkey :=
+  match c with
+  | [] => []
+  | m1 :: rest =>
+    KImport m1 :: KGlobal m1 :: KTypecheck m1 :: flat_map (frame exec) rest ++ [KImport m1]
+  end.
+
+(* src/query.rs:470-480 as it stands *)
+Definition report_asis (ks : list qkey) : list name :=
+  removelast (map key_name (filter is_import ks)).
+
+(* Vec::dedup *)
+Fixpoint dedup_adj (l : list name) : list name :=
+  match l with
+  | [] => []
+  | a :: r =>
+    match r with
+    | [] => [a]
+    | b :: _ => if Nat.eqb a b then dedup_adj r else a :: dedup_adj r
+    end
+  end.
+
+(* fixes/C15-cycle-chain-revalidated-import.patch: import and global_inner keys, dedup, drop the
+   closing entry *)
+Definition report_fixed (ks : list qkey) : list name :=
+  let ms := dedup_adj (map key_name (filter is_import_or_global ks)) in
+  match ms with
+  | a :: _ :: _ => if Nat.eqb a (last ms a) then removelast ms else ms
+  | _ => ms
   end.
